@@ -103,14 +103,28 @@ def code_data_from_json(value: object) -> CodeData:
     if not isinstance(value, dict):
         raise ValueError(f"Expected dict, got {type(value)}")
     value = copy(value)
+    for key in ("filename", "name"):
+        if key in value:
+            value[key] = string_from_json(value[key])
+    if "freevars" in value:
+        value["freevars"] = tuple(map(string_from_json, value["freevars"]))
     if "blocks" in value:
         value["blocks"] = tuple(
             tuple(instruction_from_json(i) for i in block) for block in value["blocks"]
         )
     if "type" in value:
         tp = value["type"]
+        if "docstring" in tp:
+            tp["docstring"] = string_from_json(tp["docstring"])
         if "args" in tp:
-            tp["args"] = Args(**lists_values_to_tuples(tp["args"]))
+            tp["args"] = Args(
+                **{
+                    k: tuple(map(string_from_json, v))
+                    if isinstance(v, list)
+                    else string_from_json(v)
+                    for k, v in tp["args"].items()
+                }
+            )
         value["type"] = Function(**tp)
     if "flags" in value:
         value["flags"] = frozenset(value["flags"])
@@ -123,6 +137,16 @@ def code_data_from_json(value: object) -> CodeData:
             **lists_values_to_tuples(value["_additional_line"])
         )
     return CodeData(**lists_values_to_tuples(value))
+
+
+def string_from_json(value: object) -> object:
+    """
+    Parse a JSON value into a string. Strings which cannot be encoded as UTF-8 are
+    saved as their repr, in an object, in every place a string is stored.
+    """
+    if isinstance(value, dict) and "string" in value:
+        return literal_eval(value["string"])
+    return value
 
 
 def lists_values_to_tuples(d):
@@ -154,6 +178,10 @@ def arg_from_json(value: object) -> Arg:
         raise ValueError(f"Expected dict, got {type(value)}")
     if "target" in value:
         return Jump(**value)
+    for key in ("name", "varname", "freevar", "cellvar"):
+        if key in value:
+            value = copy(value)
+            value[key] = string_from_json(value[key])
     if "name" in value:
         return Name(**value)
     if "varname" in value:
